@@ -316,6 +316,8 @@ pub fn proxy_view_json(p: &Proxy) -> Value {
 #[serde(tag = "op")]
 pub enum Op {
     AddProxy { host: u32, idx: u32, explicit_host: bool, index: Option<usize> },
+    /// symbolic variant: register again the k-th (sorted) proxy of the failed list
+    ReAddFailed { k: usize },
     RemoveProxy { addr: String },
     AddCluster { name: String, n: usize },
     RemoveCluster { name: String },
@@ -481,6 +483,20 @@ impl World {
                 let res = r(self.svc.add_proxy(p).await);
                 (res, json!({"addr": addr, "host": host_name(*host), "nodes": nodes,
                              "index": index.map(|i| i as i64).unwrap_or(-1)}), json!({}))
+            }
+            Op::ReAddFailed { k } => {
+                let mut failed: Vec<String> = self.raw_store().await["failed_proxies"].as_array().map(|a| a.iter().filter_map(|x| x.as_str().map(String::from)).collect()).unwrap_or_default();
+                failed.sort();
+                let (host, idx) = failed.get(if failed.is_empty() { 0 } else { *k % failed.len() }).and_then(|a| parse_addr(a)).unwrap_or((1, 0));
+                let addr = proxy_addr(host, idx);
+                let nodes = node_addrs(host, idx);
+                let payload = json!({"proxy_address": addr, "nodes": nodes, "host": host_name(host), "index": Value::Null});
+                let p = match serde_json::from_value(payload) {
+                    Ok(p) => p,
+                    Err(e) => return ("harness_error".into(), json!({}), json!({"e": e.to_string()})),
+                };
+                let res = r(self.svc.add_proxy(p).await);
+                (res, json!({"addr": addr, "host": host_name(host), "nodes": nodes, "index": -1}), json!({}))
             }
             Op::RemoveProxy { addr } => {
                 let res = r(self.svc.remove_proxy(addr.clone()).await);
@@ -1006,7 +1022,7 @@ pub async fn run_trace<W: Write>(cfg: &TraceCfg, out: &mut W) -> Result<Vec<Op>,
         let (res, args, outv) = world.apply(&op).await;
         let (s, obs) = world.observe().await;
         let opname = serde_json::to_value(&op).ok().and_then(|v| v["op"].as_str().map(String::from)).unwrap_or_default();
-        let opname = if opname == "FailoverAt" { "Failover".to_string() } else { opname };
+        let opname = if opname == "FailoverAt" { "Failover".to_string() } else if opname == "ReAddFailed" { "AddProxy".to_string() } else { opname };
         let line = json!({"seq": seq, "op": opname, "args": args, "res": res, "out": outv, "S": s, "obs": obs});
         writeln!(out, "{}", line).map_err(|e| e.to_string())?;
         world.snapshots.push(world.raw_store().await);
